@@ -682,7 +682,7 @@ func packagePrepareWalkFn(root string, ignoreRules *ignorefiles.Ruleset) filepat
 		if err != nil {
 			return fmt.Errorf("invalid .terraformignore rules: %#w", err)
 		}
-		if ignored.Excluded {
+		if ignored.Excluded && !info.IsDir() {
 			err := os.RemoveAll(absPath)
 			if err != nil {
 				return fmt.Errorf("failed to remove ignored file %s: %s", relPath, err)
@@ -691,23 +691,34 @@ func packagePrepareWalkFn(root string, ignoreRules *ignorefiles.Ruleset) filepat
 		}
 
 		// For directories we also need to check with a path separator on the
-		// end, which ignores entire subtrees.
-		//
-		// TODO: What about exclusion rules that follow a matching directory?
-		// Example:
-		//   /logs
-		//   !/logs/production/*
+		// end, which ignores entire subtrees - unless a rule that follows the
+		// matching one re-includes part of the subtree, as in:
+		//   /logs/
+		//   !/logs/production/
+		// (the default rules have that shape for .terraform/modules).
 		if info.IsDir() {
-			ignored, err := ignoreRules.Excludes(relPath + string(os.PathSeparator))
+			subtree, err := ignoreRules.Excludes(relPath + string(os.PathSeparator))
 			if err != nil {
 				return fmt.Errorf("invalid .terraformignore rules: %#w", err)
 			}
-			if ignored.Excluded {
+			if subtree.Excluded && subtree.Dominating {
 				err := os.RemoveAll(absPath)
 				if err != nil {
 					return fmt.Errorf("failed to remove ignored file %s: %s", relPath, err)
 				}
+				// The walk must not try to visit what was just removed.
 				return filepath.SkipDir
+			}
+			if ignored.Excluded || subtree.Excluded {
+				// The directory's own path is excluded, but what lies below
+				// it is judged by its own path (a rule naming just the
+				// directory does not match its content, and a later rule
+				// may re-include part of an excluded subtree). So the
+				// directory can go only if there is nothing in it.
+				if err := os.Remove(absPath); err == nil {
+					return filepath.SkipDir
+				}
+				return nil
 			}
 		}
 
